@@ -81,6 +81,56 @@ end
 noncomputable example : (0 : ℝ) ≤ quadForm [1, -1] (dense Method.linear [[1, 2], [3, 4]]) :=
   linear_psd [[1, 2], [3, 4]] 2 (by simp) [1, -1] rfl
 
+/-! ### Gaussian kernel: the part of positive semidefiniteness that is proved (`…_partial`)
+
+Full statement (NOT proved, kept visible): `∀ eps > 0, X, v, 0 ≤ quadForm v (dense (.gaussian eps) X)`.
+Proved below, over `ℝ` with `exp = Real.exp`, for every bandwidth `eps > 0` and all rows: every entry
+lies in `(0, 1]`, hence (with the unit diagonal and symmetry) every principal 2×2 minor is
+non-negative and the quadratic form is non-negative on every vector supported on two samples — the
+necessary conditions a wrong sign, a missing negation or `eps` used as a multiplier would break. -/
+
+theorem real_sqDist_nonneg (a b : List ℝ) : 0 ≤ sqDist a b := by
+  rw [sqDist, sumS_eq_sum]
+  apply List.sum_nonneg
+  intro x hx
+  rcases List.mem_iff_getElem.mp hx with ⟨i, hi, rfl⟩
+  simp only [List.getElem_zipWith]
+  exact mul_self_nonneg _
+
+/-- every Gaussian kernel value is in `(0, 1]` when the bandwidth is positive -/
+theorem gaussian_entry_unit_interval (eps : ℝ) (heps : 0 < eps) (a b : List ℝ) :
+    0 < kernelFn (.gaussian eps) a b ∧ kernelFn (.gaussian eps) a b ≤ 1 := by
+  show 0 < Real.exp (-(sqDist a b) / eps) ∧ Real.exp (-(sqDist a b) / eps) ≤ 1
+  refine ⟨Real.exp_pos _, ?_⟩
+  rw [Real.exp_le_one_iff]
+  exact div_nonpos_of_nonpos_of_nonneg (neg_nonpos.mpr (real_sqDist_nonneg a b)) heps.le
+
+/-- **every principal 2×2 minor of the Gaussian kernel matrix is non-negative**:
+`K_ii K_jj - K_ij K_ji ≥ 0` -/
+theorem gaussian_minor2_nonneg_partial (eps : ℝ) (heps : 0 < eps) (a b : List ℝ) :
+    0 ≤ kernelFn (.gaussian eps) a a * kernelFn (.gaussian eps) b b
+        - kernelFn (.gaussian eps) a b * kernelFn (.gaussian eps) b a := by
+  rw [gaussian_self, gaussian_self, real_exp_zero, kernelFn_symm (.gaussian eps) b a]
+  obtain ⟨h0, h1⟩ := gaussian_entry_unit_interval eps heps a b
+  nlinarith
+
+/-- **the Gaussian quadratic form is non-negative on vectors supported on two samples**:
+`s² K_aa + 2 s t K_ab + t² K_bb ≥ 0` -/
+theorem gaussian_psd_two_point_partial (eps : ℝ) (heps : 0 < eps) (a b : List ℝ) (s t : ℝ) :
+    0 ≤ s * s * kernelFn (.gaussian eps) a a + 2 * (s * t) * kernelFn (.gaussian eps) a b
+        + t * t * kernelFn (.gaussian eps) b b := by
+  rw [gaussian_self, gaussian_self, real_exp_zero]
+  obtain ⟨h0, h1⟩ := gaussian_entry_unit_interval eps heps a b
+  set k := kernelFn (.gaussian eps) a b
+  nlinarith [sq_nonneg (s + t), sq_nonneg (s - t), sq_nonneg (s + k * t), mul_nonneg h0.le (sq_nonneg t),
+    mul_nonneg (sub_nonneg.mpr h1) (sq_nonneg t), mul_nonneg (mul_nonneg h0.le (sub_nonneg.mpr h1)) (sq_nonneg t)]
+
+/-- non-vacuity: a concrete pair strictly inside the interval (distinct rows, `eps = 2`) -/
+example : kernelFn (.gaussian (2 : ℝ)) [1, 5] [2, 5] < 1 := by
+  show Real.exp (-(sqDist [1, 5] [2, 5]) / 2) < 1
+  rw [Real.exp_lt_one_iff]
+  norm_num [sqDist, sumS]
+
 /-
 `gaussian_psd` — NOT proved (needs the Schur product theorem or Bochner's theorem):
   ∀ eps > 0, X with rows of equal length, v : 0 ≤ quadForm v (dense (.gaussian eps) X)   over ℝ.
